@@ -35,6 +35,9 @@ TABLES = {
     'nonascii-names': [('r0', [('é😀', 'string'), ('ü', 'integer')], [{'é😀': 'x', 'ü': 1}])],
     'long': [('r0', [('i', 'integer'), ('s', 'string')], [{'i': k, 's': 'row-%05d-%s' % (k, 'x' * 20)} for k in range(700)])],
     'two': [('r0', [('i', 'integer')], [{'i': 1}]), ('r1', [('s', 'string')], [{'s': 'é'}, {'s': None}])],
+    # the incoming descriptor declares a non-UTF-8 encoding (as after load(csv, encoding='latin-1')); set in table_state()
+    'declared-encoding': [('r0', [('i', 'integer'), ('s', 'string')], [{'i': 1, 's': 'café'}, {'i': 2, 's': 'naïve ü'}]),
+                          ('r1', [('s', 'string')], [{'s': 'plain'}])],
     # resources whose paths have a directory part (set in check())
     'nested-paths': [('r0', [('i', 'integer')], [{'i': 1}]), ('r1', [('s', 'string')], [{'s': 'é'}, {'s': None}])],
     'three': [('r0', [('i', 'integer')], [{'i': 1}, {'i': 2}, {'i': 3}]), ('r1', [('s', 'string')], []), ('r2', [('n', 'number')], [{'n': 0.5}])],
@@ -59,6 +62,9 @@ def names_for(counters):
 
 def table_state(table):
     st = dumps.build_state(copy.deepcopy(TABLES[table]))
+    if table == 'declared-encoding':
+        for r, enc_ in zip(st.desc['resources'], ('latin-1', 'utf-8-sig')):
+            r['encoding'] = enc_
     if table == 'nested-paths':
         for k, r in enumerate(st.desc['resources']):
             r['path'] = 'data/sub%d/%s.csv' % (k, r['name']) if k else 'data/%s.csv' % r['name']
